@@ -31,6 +31,9 @@ EXPLANATION = (
     "_AUTO_BLOCKED_PAR_RANGE, is the ICP of the ivp scenario and of the defaults, and the blocked range reaches _auto_param_indices.  "
     "R5 (added; DESIGN listed it as undecided) _auto_param_indices is evaluated by a bounded interpreter of its own AST for 0..64 "
     "parameters: slots are strictly increasing, start at 1 and avoid auto-07p's reserved PAR(11..14) and every literal ICP slot >= 11.  "
+    "Extracted private emitters are followed: a method that receives the slot list (and the sequence it was computed for) or the "
+    "state list is analysed like _generate_auto_files itself; the reordering may be a returned expression of a helper; slots/indices "
+    "of unknown provenance end in ANALYSIS-ERROR, not in a violation.  "
     "NOT decided: that the exported vector field equals the model (C01), anything that needs f2py/auto-07p, user-supplied "
     "auto_parnames/auto_unames overrides, slot arithmetic beyond 64 parameters."
 )
@@ -131,6 +134,53 @@ class SlotModel:
         return False
 
 
+def _foreign_slot_reason(S: Scope, M: "SlotModel", e: ast.AST, depth=0) -> Optional[str]:
+    """A positive reason why `e` is not a slot of the slot list (it is understood to be something else); None = not understood."""
+    if depth > 6 or e is None:
+        return None
+    if isinstance(e, ast.Constant):
+        return f"the literal {e.value!r}"
+    if isinstance(e, ast.BinOp):
+        return f"computed by arithmetic (`{ast.unparse(e)}`)"
+    if isinstance(e, ast.Call) and isinstance(e.func, ast.Name) and e.func.id in ("len", "int", "sum", "max", "min"):
+        return f"computed (`{ast.unparse(e)}`)"
+    tab = None
+    if isinstance(e, ast.Subscript):
+        tab = e.value
+    elif isinstance(e, ast.Call) and isinstance(e.func, ast.Attribute) and e.func.attr in ("get", "index", "pop") and e.args:
+        tab = e.func.value
+    if tab is not None:
+        if isinstance(tab, ast.Name):
+            bs = S.binds(tab)
+            if bs and all(b.kind == "value" and b.expr is not None for b in bs):
+                return f"looked up in `{tab.id}`, which is not built from the slot list"
+        return None
+    if isinstance(e, ast.Name):
+        for b in S.binds(e):
+            if b.kind == "iter":
+                role, base, rest = element_origin(b.expr, b.path)
+                if role == "index":
+                    return f"the enumerate position `{e.id}` in `{ast.unparse(base.args[0])}`"
+                it = strip_wrappers(b.expr)
+                if isinstance(it, ast.Call) and isinstance(it.func, ast.Name) and it.func.id == "range":
+                    return f"the range counter `{e.id}`"
+                root = base
+                while isinstance(root, (ast.Subscript, ast.Attribute, ast.Call)):
+                    root = root.value if not isinstance(root, ast.Call) else root.func
+                if isinstance(root, ast.Name) and root.id not in M.lists and not M.is_map(root):
+                    rb = S.binds(root)
+                    if rb and all(x.kind == "param" for x in rb) and root.id not in M.param_maps:
+                        return None         # a parameter of unknown content
+                    return f"an element of `{ast.unparse(base)}`, which is not derived from the slot list"
+            elif b.kind == "aug":
+                return f"the hand-advanced counter `{e.id}`"
+            elif b.kind == "value" and not b.path and b.expr is not None:
+                r = _foreign_slot_reason(S, M, b.expr, depth + 1)
+                if r:
+                    return r
+    return None
+
+
 def _partner_names(S: Scope, binder) -> Set[str]:
     """names bound by the same for/comprehension"""
     tgt = binder.target
@@ -222,6 +272,9 @@ def _classify_list_uses(ctx, rid, f, S: Scope, M: SlotModel, callee_hook=None):
             else:
                 ctx.violation(rid, f, st, f"max() of the prefix list `{n.id}` does not cover the slots of all parameters", label=label)
             continue
+        if isinstance(par, ast.Call) and isinstance(par.func, ast.Name) and par.func.id == "len" and par.args == [n]:
+            ctx.ok(rid, f, st, "number of slots (no slot number is taken from it)", label=label, nontrivial=False)
+            continue
         if isinstance(par, (ast.IfExp, ast.If, ast.BoolOp, ast.UnaryOp)) :
             ctx.ok(rid, f, st, "emptiness test", label=label, nontrivial=False)
             continue
@@ -271,6 +324,9 @@ def _check_templates(ctx, rid, f, S: Scope, M: SlotModel, time_slot_ok=True) -> 
                 if len(label) > 150:
                     label = label[:150] + "…"
                 sb = M.slot_binder(hole)
+                if sb is None and _foreign_slot_reason(S, M, hole) is None:
+                    raise AnalysisError(f"{rid}: {f.qual}: cannot determine where the PAR slot `{ast.unparse(hole)}` emitted as {what} in "
+                                        f"`{shown}` comes from (unrecognised form)")
                 if sb is None:
                     ctx.violation(rid, f, st, f"the PAR slot emitted as {what} is `{ast.unparse(hole)}`, which does not come from the list "
                                               f"returned by _auto_param_indices (not a zip partner of it, not a lookup in a name->slot "
@@ -411,6 +467,9 @@ def r1_single_slot_list(ctx, rid):
             raise AnalysisError(f"{rid}: `{kwname}` handed to {call_name(c)} is not a dict comprehension (unrecognised form)")
         slot_e, other_e = (e.key, e.value) if slot_side == "key" else (e.value, e.key)
         sb = M.slot_binder(slot_e)
+        if sb is None and _foreign_slot_reason(S, M, slot_e) is None:
+            raise AnalysisError(f"{rid}: `{kwname}`: cannot determine where the tabulated slot `{ast.unparse(slot_e)}` comes from "
+                                f"(unrecognised form)")
         if sb is None:
             ctx.violation(rid, gen, _stmt(e), f"`{kwname}` tabulates slot `{ast.unparse(slot_e)}`, which does not come from the list returned "
                                               f"by _auto_param_indices: names in c.* / BVP residuals address other PAR slots than "
